@@ -1,6 +1,6 @@
 """C15 - ambiguity codes form the union algebra; complement respects it (complete enumeration)."""
-import json
-import vlib
+import json, random
+import vlib, gen, skacli
 
 
 def run(run, tier, seed):
@@ -32,6 +32,40 @@ def run(run, tier, seed):
     for i in bad:
         e = events[i]
         run.fail({"kind": "table", "event": e}, "table %s (base=%s) disagrees with the union algebra" % (e["ev"], e.get("base")))
+    weights_in_use(run, tier, seed)
+
+
+def weights_in_use(run, tier, seed):
+    """The weights as `ska distance --allow-ambiguous` uses them: tables whose rows hold ambiguity codes (the same
+    code in two samples, codes with overlapping and disjoint sets, N, gaps), every pair's printed distance against
+    Table!DistAmb (1 - sum of products of the uniform weights per shared row)."""
+    rng = random.Random(seed + 15)
+    sb = skacli.Sandbox("c15")
+    try:
+        for ti in range(8 if tier == "quick" else 80):
+            k = rng.choice(gen.ALLK)
+            n = rng.choice([2, 3, 3, 4, 6])
+            nrows = rng.randint(10, 60)
+            alphabet = ["ACGT" + "RYSWKMBDHVN" + "--", "AARRNN-", "ACGTN", "RYKMSW", "BDHVN-A"][ti % 5]
+            rows = gen.random_table(rng, k, n, nrows, alphabet=alphabet)
+            # rows in which two samples hold the SAME code next to a third that differs, and fully constant code rows
+            for r in rows[::4]:
+                c = ord(rng.choice("RYSWKMBDHVN"))
+                r[1] = [c, c] + [ord(rng.choice("ACGT-")) for _ in range(n - 2)]
+            if n >= 3:
+                rows[1][1] = [ord("N")] * n
+                rows[2][1] = [ord("S")] * n
+            sb.reset()
+            sb.import_table("x", k, True, ["w%d_%d" % (ti, i) for i in range(n)], rows)
+            for minf in ([0, 1000], [rng.choice([300, 500, 700]), 1000]):
+                sb.distance("x", n, minf, allow_ambig=True, threads=rng.choice([1, 2]))
+                run.evaluations += 1
+                run.nontriv([rows, minf])
+        events = sb.events
+    finally:
+        sb.close()
+    from props.c06 import validate
+    validate(run, events, "c15d", tier, shards=4)
 
 
 def replay(run, path):
